@@ -278,7 +278,7 @@ MANIFEST = dict(
          'stacks of mapping/file storages, compared with a model that concatenates the layers\' histories (so the joining of '
          'revision intervals across layers is decided for every tid boundary), plus a selector-driven check that no '
          'operation through the demo storage alters the base (iteration and bytes).',
-    note='one base/changes history; oids with the last byte free; blob layers in C13; conflict detection and id allocation '
-         'across layers are decided in C03 and C20.',
+    note='one base/changes history; oids with the last byte free; blob layers in C13; conflict detection, read dependencies and id '
+         'allocation across layers: the C03 / C20 harnesses are registered here on demo stacks; pack through plain / pushed / explicit-changes stacks.',
     design_ref='DESIGN.md section 4, C16',
 )
